@@ -7,7 +7,7 @@ from ..exprtree import ev
 
 NAMESETS = [dict(a='a', b='b', c='c'), dict(a='x_v1', b='x', c='x_v2'), dict(a='weight', b='r_in0', c='weight_in'),
             dict(a='r', b='rr', c='r_in'), dict(a='m_in2', b='m_in', c='m'), dict(a='source', b='t1', c='target')]
-VALUES = dict(a=3.0, b=-2.0, c=0.5)
+VALUES = dict(a=3.0, b=-2.0, c=0.5, d=2.0, e=3.0, f=1.0 / 3.0)
 
 
 def rename(s, names):
@@ -20,16 +20,31 @@ def job(j):
     from pyrates.backend.computegraph import ComputeGraph
     from pyrates.backend.parser import ExpressionParser
     from pyrates import OperatorTemplate, NodeTemplate, CircuitTemplate
+    out = []
+    for item in j['items']:
+        out.append(_eval_one(item))
+    return out
+
+
+def _eval_one(j):
+    import numpy as np
+    from pyrates.backend.computegraph import ComputeGraph
+    from pyrates.backend.parser import ExpressionParser
+    from pyrates import OperatorTemplate, NodeTemplate, CircuitTemplate
     names = j['names']
     out = []
+    vals = dict(VALUES)
+    if j.get('intb'):
+        vals['b'] = -2          # an integer-typed parameter
     for s in j['strs']:
         expr = rename(s, names)
-        used = [k for k in 'abc' if re.search(r'\b' + re.escape(names[k]) + r'\b', expr)]
+        names = dict(names, d='d', e='e', f='f')
+        used = [k for k in 'abcdef' if re.search(r'\b' + re.escape(names[k]) + r'\b', expr)]
         res = dict(expr=expr)
         # (a) direct evaluation of the parsed expression
         try:
             cg = ComputeGraph(backend='default')
-            args = {names[k]: {'vtype': 'constant', 'value': VALUES[k], 'dtype': 'float64', 'shape': ()} for k in used}
+            args = {names[k]: {'vtype': 'constant', 'value': vals[k], 'dtype': 'int32' if isinstance(vals[k], int) else 'float64', 'shape': ()} for k in used}
             if 'x' in names.values():
                 res['direct'] = 'skipped'      # the parser's implicit left-hand side is called x
             else:
@@ -45,7 +60,7 @@ def job(j):
         try:
             lhs = "d/dt * v_state" if j['ddt'] else "v_state'"
             variables = {'v_state': 'output(0.25)'}
-            variables.update({names[k]: VALUES[k] for k in used})
+            variables.update({names[k]: vals[k] for k in used})
             op = OperatorTemplate('op', equations=[f'{lhs} = {expr}'], variables=variables)
             c = CircuitTemplate('c', nodes={'n': NodeTemplate('n', operators=[op])})
             f, a, an, svm = c.get_run_func('vf', 1e-3, vectorize=False, verbose=False, clear=True, in_place=False, float_precision='float64')
@@ -65,8 +80,9 @@ def run(ctx):
                 'resembling generated labels), is evaluated by ComputeGraph.eval_node and through the generated function of a '
                 'one-equation operator (both derivative notations); both must equal the exact value')
     ctx.assumptions += ['transcendental calls are evaluated by the harness with their NumPy meaning (relative tolerance 1e-12)',
+                        'one parameter is integer-typed in a fifth of the cases; NumPy\'s refusal of integer ** negative integer is not counted',
                         'index helpers are checked on a fixed family of vector/matrix expressions against NumPy indexing']
-    fam = 'LeafAll \\cup D1(LeafAll) \\cup Rep \\cup Calls' + (' \\cup D2' if tier == 'thorough' else '')
+    fam = 'LeafAll \\cup D1(LeafAll) \\cup Rep \\cup PowTrees' + (' \\cup D2' if tier == 'thorough' else '')
     c = tlc.cfg(constants={}, invariants=['CommuteInvariant', 'NegTwice', 'Export'])
     r = tlc.run_tlc('ExprCases', c, workers=16, defs=dict(Trees=fam), timeout=3000)
     ctx.add_tlc('design', r, 'exact values + renderings; commuting operands does not change the value')
@@ -84,18 +100,26 @@ def run(ctx):
     jobs = []
     for k, e in enumerate(exprs):
         strs = e['strs'] + e['cstrs'] if tier == 'thorough' else [e['strs'][k % 4], e['strs'][(k + 1) % 4], e['cstrs'][k % 2]]
-        jobs.append(dict(strs=strs, names=NAMESETS[k % len(NAMESETS)], ddt=(k % 2 == 0), val=e['val'], tree=e['tree']))
-    outs = run_cases(job, jobs, timeout=600)
+        jobs.append(dict(strs=strs, names=NAMESETS[k % len(NAMESETS)], ddt=(k % 2 == 0), intb=(k % 5 == 0), val=e['val'], tree=e['tree']))
+    random.Random(ctx.seed + 1).shuffle(jobs)
+    batches = [dict(items=jobs[i:i + 12]) for i in range(0, len(jobs), 12)]      # several expressions per process: history matters
+    # the non-commutative compound-operand family once more, all in one process, in both orders
+    fam = [dict(j, strs=j['strs'][:1], names=NAMESETS[0], intb=False) for j in jobs if j['tree']['k'] in ('pow', 'sub', 'div')
+           and j['tree']['a'][0]['k'] in ('add', 'mul') and j['tree']['b'][0]['k'] in ('add', 'mul')]
+    fam.sort(key=lambda j: j['strs'][0])
+    batches += [dict(items=fam), dict(items=fam[::-1])]
+    outs = run_cases(job, batches, timeout=900)
     verd = {}
-    for j, o in zip(jobs, outs):
-        if isinstance(o, dict) and 'harness_error' in o:
-            raise RuntimeError(f'replay failed: {o}')
-        exp = float(Fraction(j['val'][0], j['val'][1]))
-        for res in o:
-            ctx.replayed += 1
-            ctx.case(key=[res['expr']], nontrivial=True)
-            v = judge(ctx, j, res, exp)
-            verd[v] = verd.get(v, 0) + 1
+    for b, ob in zip(batches, outs):
+        if isinstance(ob, dict) and 'harness_error' in ob:
+            raise RuntimeError(f'replay failed: {ob}')
+        for j, o in zip(b['items'], ob):
+            exp = float(Fraction(j['val'][0], j['val'][1]))
+            for res in o:
+                ctx.replayed += 1
+                ctx.case(key=[res['expr'], j.get('intb')], nontrivial=True)
+                v = judge(ctx, j, res, exp)
+                verd[v] = verd.get(v, 0) + 1
     ctx.notes['verdicts'] = verd
     calls(ctx, tier)
     indexing(ctx)
@@ -106,6 +130,8 @@ def judge(ctx, j, res, exp):
     ok = lambda v: v == 'skipped' or (isinstance(v, float) and abs(v - exp) <= 1e-12 * (1 + abs(exp)))
     if ok(res.get('direct')) and ok(res.get('generated')):
         return 'pass'
+    if j.get('intb') and 'Integers to negative integer powers' in (res.get('generated_exc', '') + res.get('direct_exc', '')):
+        return 'excluded'       # NumPy refuses integer ** negative integer: outside "real-valued variables"
     # recorded loud findings, recognised by their exact failure signature
     d, g = res.get('direct_exc', ''), res.get('generated_exc', '')
     wrong_value = (isinstance(res.get('direct'), float) and not ok(res['direct'])) or (isinstance(res.get('generated'), float) and not ok(res['generated']))
@@ -148,9 +174,9 @@ def calls(ctx, tier):
     jobs = [dict(strs=[s], names=NAMESETS[k % len(NAMESETS)], ddt=(k % 2 == 1), tree=t) for k, (s, t) in enumerate(fam)]
     if tier == 'quick':
         jobs = jobs[::2]
-    for j, o in zip(jobs, run_cases(job, jobs, timeout=600)):
+    for j, o in zip(jobs, run_cases(job, [dict(items=[x]) for x in jobs], timeout=600)):
         exp = ev(j['tree'], VALUES)
-        for res in o:
+        for res in o[0]:
             ctx.replayed += 1
             ctx.case(key=[res['expr']], nontrivial=True)
             judge(ctx, j, res, exp)
